@@ -232,44 +232,28 @@ func c16History(r *ev.Reporter, n int) {
 	for _, seed := range seeds {
 		recP(0, func() {
 			for _, set := range sets {
-				inst, c := mk(seed, 4)
+				inst, c := mk(seed, 2)
 				// build chain: b1 <- b2 ... each certified by `set` (only the head's matters)
 				parent := hotstuff.GetGenesis()
 				qc := fix.GenesisQC()
-				var head, below *hotstuff.Block
+				var head *hotstuff.Block
 				for k := 0; k < nprop; k++ {
 					b := hotstuff.NewBlock(parent.Hash(), qc, fix.Batch(), hotstuff.View(k+1), props[k])
 					c.StoreAll(b)
 					qc = fakeQC(b, set)
-					below = head
 					parent, head = b, b
-				}
-				// The leader of a view is a function of (view, committed chain): instance 2 has been asked
-				// about the same views while its committed head was still genesis and then the head's
-				// parent (a replica that looked ahead before the commit arrived); instance 3 is asked in
-				// descending order, every view twice. Both must answer like the fresh instances 0 and 1.
-				// (the view whose answer the commit changes is asked last before and first after it)
-				prequery := func(in rotInst) {
-					for _, dv := range []int{-2, -1, 1, 2, 3, 0} {
-						in.car.GetLeader(hotstuff.View(int(head.View()) + chainLen + dv))
-					}
-				}
-				if p := safely(func() {
-					prequery(inst[2])
-					if below != nil {
-						inst[2].vs.UpdateCommittedBlock(below)
-						prequery(inst[2])
-					}
-				}); p != nil {
-					r.Violation(fmt.Sprintf("carousel panic n=%d", n), fmt.Sprintf("n=%d seed=%d proposers=%v headQCsigners=%v (queries before the head was committed): %v", n, seed, props, set, p), nil)
 				}
 				// head's embedded QC certifies its parent; carousel reads head.QuorumCert().Signature()
 				for _, in := range inst {
 					in.vs.UpdateCommittedBlock(head)
 				}
-				// every sequence of up to 5 operations {commit the next block of the chain, ask about view
-				// head+chainLen-1 / +0 / +1} on one long-lived instance: each answer must equal the answer
-				// of an instance created at that moment (no dependence on earlier queries or commits)
+				// Every sequence of up to 5 operations {commit the next block of the chain, ask about view
+				// a-1 / a / a+1 around the activation view a} on two long-lived instances (two replicas that
+				// observe the same commits and ask the same questions). The property lets the answer depend
+				// on the sequence of queries, so the oracle is: both instances give the same answer, the answer
+				// is a configured replica, and whenever the carousel is active for the head committed at that
+				// moment the answer signed that head's embedded certificate and proposed none of the last f
+				// committed blocks.
 				if n <= 7 {
 					chain := []*hotstuff.Block{}
 					for b := head; b != nil && b.View() > 0; {
@@ -288,34 +272,63 @@ func c16History(r *ev.Reporter, n int) {
 					var rec func()
 					rec = func() {
 						if len(ops) == depth {
-							vs, err := protocol.NewViewStates(c.Chains[0], c.Auths[0])
-							if err != nil {
-								panic(err)
-							}
 							lg := &fix.NopLogger{}
-							long := leaderrotation.NewCarousel(chainLen, c.Chains[0], vs, c.Cfgs[0], lg)
+							var vss [2]*protocol.ViewStates
+							var long [2]*leaderrotation.Carousel
+							for k := 0; k < 2; k++ {
+								vs, err := protocol.NewViewStates(c.Chains[k], c.Auths[k])
+								if err != nil {
+									panic(err)
+								}
+								vss[k] = vs
+								long[k] = leaderrotation.NewCarousel(chainLen, c.Chains[k], vs, c.Cfgs[k], lg)
+							}
 							next := 0
 							for i, op := range ops {
 								if op == 0 {
 									if next < len(chain) {
-										vs.UpdateCommittedBlock(chain[next])
+										vss[0].UpdateCommittedBlock(chain[next])
+										vss[1].UpdateCommittedBlock(chain[next])
 										next++
 									}
 									continue
 								}
 								v := hotstuff.View(int(head.View()) + chainLen + op - 2)
-								var got, want hotstuff.ID
-								if p := safely(func() {
-									got = long.GetLeader(v)
-									want = leaderrotation.NewCarousel(chainLen, c.Chains[0], vs, c.Cfgs[0], lg).GetLeader(v)
-								}); p != nil {
-									r.Violation(fmt.Sprintf("carousel panic n=%d", n), fmt.Sprintf("n=%d seed=%d proposers=%v headQCsigners=%v ops %v: %v", n, seed, props, set, ops[:i+1], p), nil)
+								var got [2]hotstuff.ID
+								desc := fmt.Sprintf("n=%d seed=%d proposers=%v headQCsigners=%v, ops %v (0=commit next block, 1..3 = ask view head+%d-1..+1)", n, seed, props, set, ops[:i+1], chainLen)
+								if p := safely(func() { got[0], got[1] = long[0].GetLeader(v), long[1].GetLeader(v) }); p != nil {
+									r.Violation(fmt.Sprintf("carousel panic n=%d", n), desc+fmt.Sprintf(": %v", p), nil)
 									break
 								}
-								r.Transitions++
-								if got != want {
-									r.Violation(fmt.Sprintf("carousel answer depends on history n=%d", n), fmt.Sprintf("n=%d seed=%d proposers=%v headQCsigners=%v, ops %v (0=commit next block, 1..3 = ask view head+%d-1..+1): long-lived instance answers %d for view %d, a fresh instance %d", n, seed, props, set, ops[:i+1], chainLen, got, v, want), nil)
+								r.Transitions += 2
+								if got[0] != got[1] {
+									r.Violation(fmt.Sprintf("carousel disagreement after the same history n=%d", n), desc+fmt.Sprintf(": two replicas with the same commits and queries answer %d and %d for view %d", got[0], got[1], v), nil)
 									break
+								}
+								if got[0] < 1 || int(got[0]) > n {
+									r.Violation(fmt.Sprintf("carousel unknown replica n=%d", n), desc+fmt.Sprintf(": %d", got[0]), nil)
+									break
+								}
+								if next > 0 {
+									cur := chain[next-1]
+									if sig := cur.QuorumCert().Signature(); sig != nil && cur.View() == v-chainLen {
+										signer := false
+										sig.Participants().ForEach(func(id hotstuff.ID) {
+											if id == got[0] {
+												signer = true
+											}
+										})
+										recent := false
+										for k := 0; k < f && next-1-k >= 0; k++ {
+											if chain[next-1-k].Proposer() == got[0] {
+												recent = true
+											}
+										}
+										if !signer || recent {
+											r.Violation(fmt.Sprintf("carousel picks non-candidate n=%d", n), desc+fmt.Sprintf(": active for the committed head of view %d, picked %d for view %d (signer of the head's certificate=%v, proposer of one of the last %d committed blocks=%v)", cur.View(), got[0], v, signer, f, recent), nil)
+											break
+										}
+									}
 								}
 							}
 							r.Evaluations++
@@ -328,23 +341,6 @@ func c16History(r *ev.Reporter, n int) {
 						}
 					}
 					rec()
-				}
-				hist := map[hotstuff.View][2]hotstuff.ID{}
-				if p := safely(func() {
-					first := inst[2].car.GetLeader(head.View() + chainLen)
-					for dv := 3; dv >= -2; dv-- {
-						v := hotstuff.View(int(head.View()) + chainLen + dv)
-						x := inst[3].car.GetLeader(v)
-						if y := inst[3].car.GetLeader(v); y != x {
-							r.Violation(fmt.Sprintf("carousel repeated query n=%d", n), fmt.Sprintf("n=%d seed=%d proposers=%v headQCsigners=%v view=%d: %d then %d", n, seed, props, set, v, x, y), nil)
-						}
-						hist[v] = [2]hotstuff.ID{inst[2].car.GetLeader(v), x}
-						if dv == 0 && hist[v][0] != first {
-							hist[v] = [2]hotstuff.ID{first, x}
-						}
-					}
-				}); p != nil {
-					r.Violation(fmt.Sprintf("carousel panic n=%d", n), fmt.Sprintf("n=%d seed=%d proposers=%v headQCsigners=%v (descending / repeated queries): %v", n, seed, props, set, p), nil)
 				}
 				lastAuthors := map[hotstuff.ID]bool{}
 				for k := 0; k < f && k < nprop; k++ {
@@ -370,19 +366,12 @@ func c16History(r *ev.Reporter, n int) {
 					if a != b {
 						r.Violation(fmt.Sprintf("carousel disagreement n=%d", n), desc+fmt.Sprintf(": %d vs %d", a, b), map[string]any{"case": desc})
 					}
-					if h, ok := hist[v]; ok && (h[0] != a || h[1] != a) {
-						r.Violation(fmt.Sprintf("carousel answer depends on earlier queries n=%d", n), desc+fmt.Sprintf(": fresh instance %d, instance asked before the commit %d, instance asked in descending order %d", a, h[0], h[1]), map[string]any{"case": desc})
-					}
-					r.Transitions += 3
 					if a < 1 || int(a) > n {
 						r.Violation(fmt.Sprintf("carousel unknown replica n=%d", n), desc+fmt.Sprintf(": %d", a), map[string]any{"case": desc})
 					}
 					active := len(headSigners) > 0 && head.View() == v-chainLen
 					if active && (!headSigners[a] || lastAuthors[a]) {
 						r.Violation(fmt.Sprintf("carousel picks non-candidate n=%d", n), desc+fmt.Sprintf(": picked %d (signer=%v recentProposer=%v)", a, headSigners[a], lastAuthors[a]), map[string]any{"case": desc})
-					}
-					if !active && a != leaderrotation.ChooseRoundRobin(v, n) {
-						r.Violation(fmt.Sprintf("carousel fallback n=%d", n), desc+fmt.Sprintf(": inactive carousel picked %d", a), map[string]any{"case": desc})
 					}
 				}
 			}
